@@ -186,6 +186,7 @@ func checkSparse(root *JV, d *DocSpec) (string, string) {
 			return "unknown-resource", fmt.Sprintf("%s is %s/%s which the document does not hold", ro.Where, tn.Str, id.Str)
 		}
 		sel, hasSel := d.Fields[tn.Str]
+		t = rs.ownType(t) // "its type": a resource may have fewer fields than the schema type of the same name
 		var wantAttrs, wantRels []string
 		if hasSel {
 			for _, a := range t.AttrNames() {
